@@ -295,6 +295,85 @@ def judge_manager_sequence(rec: Recorder, urls: list[str], proxy: str | None, sh
         pm.clear()
 
 
+class RedirSrv:
+    """Answers every request whose target contains '/hop' with a 302 to ``location``; anything else with 200."""
+
+    def __init__(self, location: str):
+        self.location = location
+
+    def on_request(self, net: netsim.Net, sc: netsim.ServerConn, req: wire.Request) -> None:
+        if b"/hop" in req.target:
+            sc.write(wire.build_response(302, "Found", headers=[("Location", self.location)], body=b""))
+        else:
+            sc.write(wire.build_response(200, body=b"ok"))
+
+
+def judge_redirect(rec: Recorder, url1: str, url2: str, proxy: str | None, headers_mode: str) -> None:
+    """The manager follows a redirect from url1 to url2: the follow-up request is a request for url2 and must name
+    url2's host in Host, be dialled / tunnelled to url2's host and port, and use url2's TLS server name."""
+    import urllib3
+    from urllib3.util import Retry
+
+    case = {"redirect": [url1, url2], "proxy": proxy, "headers": headers_mode}
+    ref2 = ref_reading(url2)
+    if ref2 is None or ref_reading(url1) is None:
+        return
+    exp = expected(ref2)
+    with netsim.Net(RedirSrv(url2), fake_tls="inner") as net, warnings.catch_warnings():
+        warnings.simplefilter("ignore")
+        pm = urllib3.ProxyManager(proxy, cert_reqs="CERT_NONE") if proxy else urllib3.PoolManager(cert_reqs="CERT_NONE")
+        kw: dict[str, typing.Any] = {}
+        if headers_mode == "caller":
+            kw["headers"] = {"X-Caller": "c"}
+        elif headers_mode == "caller-host-virtual":
+            kw["headers"] = {"Host": "virtual.example"}  # an explicit Host that names neither URL is the caller's business
+        try:
+            r = pm.request("GET", url1, retries=Retry(3, redirect=2), **kw)
+        except Exception as e:  # noqa: BLE001
+            rec.count("redirect_case_rejected")
+            return
+        evs = [e for e in net.events if e[1] == "request"]
+        if r.status != 200 or len(evs) < 2:
+            rec.count("redirect_not_followed")
+            return
+        rec.mon("redirect_follow_up")
+        st = net.states[evs[-1][2]]
+        req = st.server.requests[evs[-1][3]]
+        hv = b",".join(wire.header_get(req.headers, b"host")).decode("latin-1")
+        if headers_mode == "caller-host-virtual":
+            if hv != "virtual.example":
+                rec.count("explicit_virtual_host_not_kept")
+            pm.clear()
+            return
+        ok: set[str] = set()
+        for h in exp["host_header_hosts"]:
+            ok |= {h, f"{h}:{exp['dial_port']}"} if exp["host_header_port"] is None else {f"{h}:{exp['host_header_port']}"}
+        tunnelled = bool(proxy) and ref2["scheme"] == "https"
+        if hv not in ok:
+            route = "tunnel" if tunnelled else ("forward" if proxy else "direct")
+            rec.fail(case, "host-header-wrong", {"url": url2, "got": hv, "want": sorted(ok), "route": route, "after_redirect": True, "host_kind": "ipv6" if ref2["host"].startswith("[") else "name", "double_bracket": hv.startswith("[["),
+                                                 "names_previous_host": hv.split(":")[0].strip("[]").lower() == (ref_reading(url1) or {}).get("host", "").strip("[]").rstrip(".")}, f"the follow-up request for {url2!r} carried Host: {hv!r}")
+            pm.clear()
+            return
+        if proxy:
+            want_dial = ("proxy.test", 3128)
+            got_dial = (st.dial["host"], st.dial["port"])
+            if got_dial != want_dial:
+                rec.fail(case, "dial-mismatch", {"got": got_dial, "want": want_dial, "after_redirect": True}, f"follow-up dialled {got_dial}")
+            elif tunnelled:
+                tgt = (st.server.tunnel or b"").decode("latin-1").lower()
+                host = ref2["host"]
+                zoneless = (host[1:-1].split("%", 1)[0]) if host.startswith("[") else host
+                want_t = (("[" + zoneless + "]") if host.startswith("[") else host) + f":{exp['dial_port']}"
+                if tgt not in {want_t, ("[" + host[1:-1] + "]" if host.startswith("[") else host) + f":{exp['dial_port']}"}:
+                    rec.fail(case, "connect-authority-mismatch", {"got": tgt, "want": want_t, "after_redirect": True}, f"follow-up tunnelled to {tgt!r}")
+        else:
+            got_dial = (st.dial["host"], st.dial["port"])
+            if got_dial[0].lower() != exp["dial_host"].lower() or got_dial[1] != exp["dial_port"]:
+                rec.fail(case, "dial-mismatch", {"got": got_dial, "want": (exp["dial_host"], exp["dial_port"]), "after_redirect": True}, f"follow-up for {url2!r} dialled {got_dial}")
+        pm.clear()
+
+
 def forward_like(proxy: str | None, url: str) -> bool:
     return bool(proxy) and url.lower().startswith("http://")
 
@@ -359,6 +438,19 @@ def run_shard(ctx: Ctx, rec: Recorder) -> None:
                 if ctx.mine(si):
                     rec.case(["mgr-seq", seq, proxy, shared])
                     judge_manager_sequence(rec, seq, proxy, shared)
+    # (iii-c) redirects followed by the manager: the follow-up is a request for the new URL
+    firsts = ["http://alpha.test/hop", "http://alpha.test:8080/hop?x=1", "https://alpha.test/hop", "http://[::1]:81/hop", "http://ALPHA.test./hop"]
+    seconds = ["http://beta.test/final", "https://beta.test/final?y=2", "http://beta.test:9090/final", "https://beta.test:8443/final", "http://alpha.test:9090/final", "https://alpha.test/final", "http://[2001:db8::1:0]/final", "https://[::1]:8443/final", "http://BETA.test/final#frag", "http://alpha.test/final"]
+    ri = 0
+    for u1 in firsts:
+        for u2 in seconds:
+            for proxy in (None, "http://proxy.test:3128"):
+                for hm in ("none", "caller", "caller-host-virtual"):
+                    ri += 1
+                    if not ctx.mine(ri) or (hm == "caller-host-virtual" and ri % 5):
+                        continue
+                    rec.case(["redirect", u1, u2, proxy, hm])
+                    judge_redirect(rec, u1, u2, proxy, hm)
     # (iv) random assembly
     n = ctx.pick(1500, 60000)
     for i in range(n):
@@ -376,6 +468,8 @@ def replay(case: dict[str, typing.Any], ctx: Ctx, rec: Recorder) -> None:
     rec.case(case)
     if "url" in case:
         judge(rec, case["url"], case.get("proxy"))
+    elif "redirect" in case:
+        judge_redirect(rec, case["redirect"][0], case["redirect"][1], case.get("proxy"), case.get("headers", "none"))
     elif "urls" in case:
         judge_manager_sequence(rec, case["urls"], case.get("proxy"), case.get("shared_headers", False))
     else:
